@@ -79,22 +79,116 @@ def local_roots(fn, nid):
     return {r for r in roots(fn, nid) if r[0] in ('var', 'field')}
 
 
+def _expand_atoms(fn, cond, sense, out, depth=0):
+    """atomic conditions whose truth value is implied by `cond` having evaluated to `sense`:
+    (a && b) true => a true, b true; (a || b) false => a false, b false; !a flips."""
+    if cond is None or depth > 12:
+        return
+    c = fn.strip(cond)
+    n = fn.nodes.get(c)
+    if n is None:
+        return
+    if n.get('k') == 'binop' and n.get('op') in ('&&', '||'):
+        if (n['op'] == '&&' and sense) or (n['op'] == '||' and not sense):
+            _expand_atoms(fn, n['lhs'], sense, out, depth + 1)
+            _expand_atoms(fn, n['rhs'], sense, out, depth + 1)
+        return
+    if n.get('k') == 'unop' and n.get('op') == '!':
+        _expand_atoms(fn, n['sub'], not sense, out, depth + 1)
+        return
+    out.append((c, sense))
+
+
+def edge_atoms(fn, blk):
+    """[(atomic condition id, truth value, successor index)] -- what is known on each outgoing edge of a two-way branch.
+    Both the whole terminator condition (valid on the edge of the block that decides it, including join blocks of
+    `!(a && b)`) and the part decided in this block (short-circuit operand) are expanded."""
+    if 'cond' not in blk or len(blk['succs']) != 2 or blk.get('termcls') == 'SwitchStmt':
+        return []
+    out = []
+    conds = [blk['cond']]
+    e = effective_cond(fn, blk)
+    if e is not None and fn.strip(e) != fn.strip(blk['cond']):
+        conds.append(e)
+    seen = set()
+    for c in conds:
+        for idx, sense in ((0, True), (1, False)):
+            atoms = []
+            _expand_atoms(fn, c, sense, atoms)
+            for (a, s) in atoms:
+                if (a, s, idx) not in seen:
+                    seen.add((a, s, idx))
+                    out.append((a, s, idx))
+    return out
+
+
+def _holds(fn, cond, sense, classify, depth=0):
+    """the fact recognised by `classify` is true in every way `cond` can evaluate to `sense`
+    (a || b true: needed in both cases; a && b true: either operand suffices; ...)."""
+    if cond is None or depth > 12:
+        return False
+    c = fn.strip(cond)
+    n = fn.nodes.get(c)
+    if n is None:
+        return False
+    if n.get('k') == 'binop' and n.get('op') in ('&&', '||'):
+        l = _holds(fn, n['lhs'], sense, classify, depth + 1)
+        r = _holds(fn, n['rhs'], sense, classify, depth + 1)
+        both_known = (n['op'] == '&&') == sense     # (a && b) true / (a || b) false: both operand values are known
+        return (l or r) if both_known else (l and r)
+    if n.get('k') == 'unop' and n.get('op') == '!':
+        return _holds(fn, n['sub'], not sense, classify, depth + 1)
+    r = classify(fn, c)
+    return r is not None and ((r == 'T') == sense)
+
+
 def classify_edges(fn, classify):
-    """classify(fn, cond id) -> 'T' (fact holds on the true edge) | 'F' (on the false edge) | None.
-    Returns the set of pass edges {(block id, successor index)}; leading negations are folded."""
+    """classify(fn, atomic cond id) -> 'T' (fact holds when the condition is true) | 'F' (when it is false) | None.
+    Returns the set of pass edges {(block id, successor index)} on which the fact is established, looking at the whole
+    terminator condition (join blocks of negated / parenthesised conditions) and at the operand decided in the block."""
     out = set()
     for blk in fn.blocks.values():
         if 'cond' not in blk or len(blk['succs']) != 2 or blk.get('termcls') == 'SwitchStmt':
             continue
-        c = effective_cond(fn, blk)
-        if c is None:
-            continue
-        inner, pol = strip_not(fn, c)
-        r = classify(fn, inner)
-        if r is None:
-            continue
-        on_true = (r == 'T') == pol
-        out.add((blk['id'], 0 if on_true else 1))
+        conds = [blk['cond']]
+        e = effective_cond(fn, blk)
+        if e is not None and fn.strip(e) != fn.strip(blk['cond']):
+            conds.append(e)
+        for c in conds:
+            for idx, sense in ((0, True), (1, False)):
+                if _holds(fn, c, sense, classify):
+                    out.add((blk['id'], idx))
+    return out
+
+
+def matching_conds(fn, classify):
+    """atomic condition ids (anywhere in a branch condition) the classifier recognises."""
+    out = []
+    for blk in fn.blocks.values():
+        for (a, _t, _i) in edge_atoms(fn, blk):
+            if classify(fn, a) is not None and a not in out:
+                out.append(a)
+    return out
+
+
+def deep_roots(fn, nid, depth=0):
+    """local_roots with single-definition locals (`const auto n = static_cast<T>(len);`) replaced by the roots of their
+    initialiser."""
+    out = set()
+    for r in local_roots(fn, nid):
+        if r[0] == 'var' and not is_param(fn, r[1]) and depth < 4:
+            ds = definitions(fn, r[1])
+            init = None
+            if len(ds) == 1 and fn.nodes[ds[0]].get('k') == 'decl':
+                for v in fn.nodes[ds[0]]['vars']:
+                    if v['d'] == r[1] and isinstance(v.get('init'), int):
+                        init = v['init']
+            if init is not None:
+                sub = deep_roots(fn, init, depth + 1)
+                if sub:
+                    out |= sub
+                    continue
+        out.add(r)
     return out
 
 
@@ -195,6 +289,42 @@ def reaches_unchecked(fn, starts, targets, pass_edges, barriers=()):
         if w is not None:
             return [s if s == 'entry' else ('from', s)] + w
     return None
+
+
+def helper_barriers(fb, fn, subj, make_classifier):
+    """Calls in fn that hand a value rooted in `subj` to a helper which establishes the fact itself: in the helper, no
+    path from the entry to a normal exit avoids the pass edges of make_classifier(<that parameter>).  Such a call is as
+    good as the inline test (`check_length(len);`), so it acts as a barrier for reaches_unchecked."""
+    out = []
+    for c in fn.all_nodes():
+        if c.get('k') != 'call' or not c.get('u'):
+            continue
+        bodies = [g for g in fb.by_usr.get(c['u'], []) if g.has_cfg]
+        if not bodies:
+            continue
+        g = bodies[0]
+        for i, a in enumerate(c.get('args', []) or []):
+            if a is None or i >= len(g.params):
+                continue
+            r = local_roots(fn, a)
+            if not r or not r <= subj:
+                continue
+            ps = {('var', g.params[i]['d'])}
+
+            def is_subject(f, x, ps=ps):
+                rr = local_roots(f, x)
+                return bool(rr) and rr <= ps
+            pe = classify_edges(g, make_classifier(is_subject))
+            if not pe or definitions(g, g.params[i]['d']):
+                continue
+
+            def edge_ok(b, idx, s2, pe=pe):
+                return (b, idx) not in pe
+            w = path_search(g, g.entry, lambda e: isinstance(e, tuple) and e[0] == 'exit',
+                            lambda e, g=g: g.nodes.get(e, {}).get('k') == 'throw', edge_ok, from_block_start=True)
+            if w is None:
+                out.append(c['id'])
+    return out
 
 
 def _elemset(fn):
@@ -464,41 +594,37 @@ class CursorFlow:
                 return changed
         return st
 
-    def edge_fact(self, blk):
-        """(cursor decl, successor index on which it is CHECKED) for a block whose condition compares a cursor with another
-        pointer, else None."""
+    def edge_facts(self, blk):
+        """[(cursor decl, successor index on which it is CHECKED)] for a block whose condition compares cursors with other
+        pointers."""
         fn = self.fn
-        if 'cond' not in blk or len(blk['succs']) != 2 or blk.get('termcls') == 'SwitchStmt':
-            return None
-        c = effective_cond(fn, blk)
-        if c is None:
-            return None
-        inner, pol = strip_not(fn, c)
-        p = cmp_parts(fn, inner)
-        if p is None:
-            return None
-        op, l, r = p
-        cl, cr = self.cursor_of(l), self.cursor_of(r)
-        if cl is not None and cr is None:
-            cur, other = cl, r
-        elif cr is not None and cl is None:
-            cur, other, op = cr, l, _FLIP[op]
-        else:
-            return None
-        on = fn.sn(other)
-        if on is None or not (on.get('t', '').endswith('*') or on.get('t', '').endswith('*const')):
-            return None
-        if fn.const_value(other) is not None:
-            return None     # comparison with nullptr says nothing about the end of the data
-        if op == '!=' or op == '<':
-            good_true = True
-        elif op == '==' or op == '>=':
-            good_true = False
-        else:
-            return None
-        if not pol:
-            good_true = not good_true
-        return cur, (0 if good_true else 1)
+        out = []
+        for (a, truth, idx) in edge_atoms(fn, blk):
+            p = cmp_parts(fn, a)
+            if p is None:
+                continue
+            op, l, r = p
+            cl, cr = self.cursor_of(l), self.cursor_of(r)
+            if cl is not None and cr is None:
+                cur, other = cl, r
+            elif cr is not None and cl is None:
+                cur, other, op = cr, l, _FLIP[op]
+            else:
+                continue
+            on = fn.sn(other)
+            if on is None or not (on.get('t', '').endswith('*') or on.get('t', '').endswith('*const')):
+                continue
+            if fn.const_value(other) is not None:
+                continue        # comparison with nullptr says nothing about the end of the data
+            if op in ('!=', '<'):
+                good_when = True
+            elif op in ('==', '>='):
+                good_when = False
+            else:
+                continue
+            if good_when == truth:
+                out.append((cur, idx))
+        return out
 
     def run(self):
         fn = self.fn
@@ -518,14 +644,16 @@ class CursorFlow:
             blk = fn.blocks[b]
             for e in blk['elems']:
                 st = self.transfer(st, fn.nodes[e], False)
-            ef = self.edge_fact(blk)
+            efs = self.edge_facts(blk)
             for idx, s in enumerate(blk['succs']):
                 if s is None:
                     continue
                 out = st
-                if ef is not None and ef[1] == idx:
-                    out = dict(st)
-                    out[ef[0]] = CHECKED
+                for (cur, eidx) in efs:
+                    if eidx == idx:
+                        if out is st:
+                            out = dict(st)
+                        out[cur] = CHECKED
                 old = IN.get(s)
                 if old is None:
                     IN[s] = dict(out)
